@@ -206,6 +206,8 @@ Lemma locked_upd_drop c (lt : nat -> list (nat * lkind)) i :
   locked c (upd lt i (drop c (lt i)) i) = None.
 Proof. rewrite upd_same. apply locked_drop_same. Qed.
 
+Arguments os_step : simpl never.
+
 Lemma phase_step cfg s c eintr :
   io_only (body_of_call (c_call (cfg c))) ->
   cphase cfg s c -> cphase cfg (run_client cfg c eintr s) c.
@@ -231,35 +233,35 @@ Proof.
     unfold lock_stage, flock_step. simpl.
     rewrite (os_flock_req _ _ _ m _ _ _ Hreq Ho).
     destruct (can_grant m c _).
-    + simpl. rewrite upd_same, Ho, locked_upd_grant, <- Hs. now apply ph_trunc.
+    + simpl. rewrite !upd_same, Ho, locked_cons_same, <- Hs. now apply ph_trunc.
     + destruct eintr; simpl.
-      * rewrite upd_same, Ho, <- Hl, <- Hs. apply ph_lock.
+      * rewrite !upd_same, Ho, <- Hl, <- Hs. apply ph_lock.
       * rewrite <- ?Hp, Ho, <- Hl, <- Hs. apply ph_lock.
   - (* ftruncate (or nothing) *)
     unfold trunc_stage. destruct (has_flag fl truncate_cond_mask).
     + destruct (os_io i c (OFtruncate (N.to_nat truncate_size)) (st_os s) eintr FNone eq_refl Ho)
         as [r [o2 [Hos [Ho2 Hlt]]]].
-      rewrite Hos. simpl. rewrite upd_same, Ho2, Hlt, <- Hl, <- Hs.
+      rewrite Hos. simpl. rewrite !upd_same, Ho2, Hlt, <- Hl, <- Hs.
       destruct r; try (now apply ph_truncfail). now apply ph_ret.
     + (* k0 true = after_open b: the mark *)
-      simpl. rewrite upd_same, Ho, <- Hl.
+      simpl. rewrite !upd_same, Ho, <- Hl.
       apply (ph_cs _ _ m' b Hm' Hio).
   - (* failed truncate: unlock *)
     unfold trunc_fail_prog. simpl. rewrite (os_flock_unlock _ _ _ _ _ Ho). simpl.
-    rewrite upd_same, Ho, locked_upd_drop, <- Hs. apply ph_close. discriminate.
+    rewrite !upd_same, Ho, locked_drop_same, <- Hs. apply ph_close. discriminate.
   - (* the locking call returns *)
-    simpl. rewrite upd_same, Ho, <- Hl. apply (ph_cs _ _ m' b Hm' Hio).
+    simpl. rewrite !upd_same, Ho, <- Hl. apply (ph_cs _ _ m' b Hm' Hio).
   - (* critical section *)
     destruct Hb' as [x|o k Hoio Hk]; simpl.
-    + rewrite upd_same, Ho, <- Hl. now apply ph_closing.
+    + rewrite !upd_same, Ho, <- Hl. now apply ph_closing.
     + destruct (os_io i c o (st_os s) eintr FNone Hoio Ho) as [r [o2 [Hos [Ho2 Hlt]]]].
       rewrite Hos.
       assert (Hst : status_after o (status s c) = SInCS)
         by (rewrite <- Hs; destruct o; try discriminate Hoio; reflexivity).
-      destruct r; simpl; rewrite upd_same, Ho2, Hlt, <- Hl, Hst; now apply ph_cs.
+      destruct r; simpl; rewrite !upd_same, Ho2, Hlt, <- Hl, Hst; now apply ph_cs.
   - (* Close: unlock *)
     unfold close_prog. simpl. rewrite (os_flock_unlock _ _ _ _ _ Ho). simpl.
-    rewrite upd_same, Ho, locked_upd_drop, <- Hs. apply ph_close. discriminate.
+    rewrite !upd_same, Ho, locked_drop_same, <- Hs. apply ph_close. discriminate.
   - (* close *)
     rewrite (os_close _ _ _ _ _ Ho). simpl. rewrite !upd_same.
     assert (Hl2 : locked c ((if Nat.eqb (refs (st_os s) c) 0
@@ -268,5 +270,209 @@ Proof.
     { destruct (Nat.eqb _ 0); [apply locked_upd_drop|now symmetry]. }
     rewrite Hl2. now apply ph_done.
   - (* done *)
-    simpl. rewrite Ho, <- Hl. now apply ph_done.
+    simpl. rewrite <- Hp, Ho, <- Hl. now apply ph_done.
+Qed.
+
+(* ------------------------------------------------------------------ the invariant *)
+
+Record inv06 (cfg : nat -> client) (s : state) : Prop := {
+  i_tab : forall i, ltab_ok (ltab (st_os s) i);
+  i_phase : forall c, cphase cfg s c;
+  i_own : forall c i, i <> c_ino (cfg c) -> locked c (ltab (st_os s) i) = None
+}.
+
+(* a step of client c: the OS is untouched or changed by one os_step of c on its inode *)
+Lemma run_client_os cfg c eintr s :
+  st_os (run_client cfg c eintr s) = st_os s \/
+  exists o r, os_step (c_ino (cfg c)) c o FNone eintr (st_os s)
+              = Some (r, st_os (run_client cfg c eintr s)).
+Proof.
+  unfold run_client. destruct (progs s c) as [x|o k|o k]; [now left| |];
+  destruct (os_step (c_ino (cfg c)) c o FNone eintr (st_os s)) as [[r o2]|] eqn:Hos; try now left.
+  - right. exists o, r. exact Hos.
+  - right. exists o, r. destruct r; exact Hos.
+Qed.
+
+Lemma run_client_other cfg c eintr s d :
+  d <> c ->
+  progs (run_client cfg c eintr s) d = progs s d /\
+  status (run_client cfg c eintr s) d = status s d.
+Proof.
+  intros Hd. unfold run_client. destruct (progs s c) as [x|o k|o k]; [now split| |];
+  destruct (os_step (c_ino (cfg c)) c o FNone eintr (st_os s)) as [[r o2]|]; try now split.
+  - simpl. now rewrite !upd_other.
+  - destruct r; simpl; now rewrite !upd_other.
+Qed.
+
+Lemma inv06_run_client cfg c eintr s :
+  wf_cfg cfg -> inv06 cfg s -> inv06 cfg (run_client cfg c eintr s).
+Proof.
+  intros Hwf [Htab Hph Hown].
+  pose proof (phase_step cfg s c eintr (Hwf c) (Hph c)) as Hc.
+  destruct (run_client_os cfg c eintr s) as [E|[o [r Hos]]].
+  - (* OS unchanged *)
+    split; try (rewrite E; assumption).
+    intros d. destruct (Nat.eq_dec d c) as [->|Hd]; [exact Hc|].
+    unfold cphase. destruct (run_client_other cfg c eintr s d Hd) as [-> ->]. rewrite E. apply Hph.
+  - set (s' := run_client cfg c eintr s) in *. set (i := c_ino (cfg c)) in *.
+    split.
+    + intros j. destruct (Nat.eq_dec j i) as [->|Hj].
+      * eapply os_step_ltab_ok; [exact Hos|apply Htab].
+      * rewrite (os_step_ltab_other_inode _ _ _ _ _ _ _ _ j Hos Hj). apply Htab.
+    + intros d. destruct (Nat.eq_dec d c) as [->|Hd]; [exact Hc|].
+      unfold cphase. fold s'. destruct (run_client_other cfg c eintr s d Hd) as [Ep Es].
+      fold s' in Ep, Es. rewrite Ep, Es, (os_step_fds_other _ _ _ _ _ _ _ _ d Hos Hd).
+      replace (locked d (ltab (st_os s') (c_ino (cfg d))))
+        with (locked d (ltab (st_os s) (c_ino (cfg d)))); [apply Hph|].
+      destruct (Nat.eq_dec (c_ino (cfg d)) i) as [->|Hj].
+      * symmetry. eapply os_step_locked_other; eassumption.
+      * now rewrite (os_step_ltab_other_inode _ _ _ _ _ _ _ _ _ Hos Hj).
+    + intros d j Hj. destruct (Nat.eq_dec j i) as [->|Hji].
+      * destruct (Nat.eq_dec d c) as [->|Hd]; [contradiction|].
+        rewrite (os_step_locked_other _ _ _ _ _ _ _ _ d Hos Hd). now apply Hown.
+      * rewrite (os_step_ltab_other_inode _ _ _ _ _ _ _ _ j Hos Hji). now apply Hown.
+Qed.
+
+Lemma phase_closed_unlocked fl b p l st : phase fl b p false l st -> l = None.
+Proof. intros H. inversion H; reflexivity. Qed.
+
+Lemma inv06_exec cfg s e : wf_cfg cfg -> inv06 cfg s -> inv06 cfg (exec cfg s e).
+Proof.
+  intros Hwf Hinv. destruct e as [c|c|c|c]; simpl.
+  - now apply inv06_run_client.
+  - now apply inv06_run_client.
+  - (* a child inherits the descriptor: only the reference count changes *)
+    destruct Hinv as [Htab Hph Hown].
+    assert (E : forall d, fds (os_dup c (st_os s)) d = fds (st_os s) d /\
+                          ltab (os_dup c (st_os s)) = ltab (st_os s)).
+    { intros d. unfold os_dup. destruct (fds (st_os s) c); simpl; auto. }
+    split; simpl.
+    + intros i. rewrite (proj2 (E 0)). apply Htab.
+    + intros d. unfold cphase. simpl. rewrite (proj1 (E d)), (proj2 (E d)). apply Hph.
+    + intros d i Hi. rewrite (proj2 (E d)). now apply Hown.
+  - (* an inherited copy goes away: may drop the entry of a closed description *)
+    destruct Hinv as [Htab Hph Hown].
+    set (i := c_ino (cfg c)).
+    assert (Ef : forall d, fds (os_dupclose i c (st_os s)) d = fds (st_os s) d).
+    { intros d. unfold os_dupclose. destruct (refs (st_os s) c); reflexivity. }
+    assert (El : ltab (os_dupclose i c (st_os s)) = ltab (st_os s) \/
+                 (fds (st_os s) c = None /\
+                  ltab (os_dupclose i c (st_os s)) = upd (ltab (st_os s)) i (drop c (ltab (st_os s) i)))).
+    { unfold os_dupclose. destruct (refs (st_os s) c) as [|[|n]]; simpl; auto.
+      destruct (fds (st_os s) c); auto. }
+    destruct El as [El|[Hc El]].
+    + split; simpl.
+      * intros j. rewrite El. apply Htab.
+      * intros d. unfold cphase. simpl. rewrite Ef, El. apply Hph.
+      * intros d j Hj. rewrite El. now apply Hown.
+    + assert (Hcl : locked c (ltab (st_os s) i) = None).
+      { pose proof (Hph c) as H. unfold cphase in H. rewrite Hc in H. simpl in H.
+        eapply phase_closed_unlocked. exact H. }
+      assert (Hsame : forall d j, locked d (ltab (os_dupclose i c (st_os s)) j)
+                                  = locked d (ltab (st_os s) j)).
+      { intros d j. rewrite El. destruct (Nat.eq_dec j i) as [->|Hj].
+        - rewrite upd_same. destruct (Nat.eq_dec d c) as [->|Hd].
+          + now rewrite locked_drop_same.
+          + now apply locked_drop_other.
+        - now rewrite upd_other. }
+      split; simpl.
+      * intros j. rewrite El. destruct (Nat.eq_dec j i) as [->|Hj].
+        -- rewrite upd_same. apply ltab_ok_drop, Htab.
+        -- rewrite upd_other by assumption. apply Htab.
+      * intros d. unfold cphase. simpl. rewrite Ef, Hsame. apply Hph.
+      * intros d j Hj. rewrite Hsame. now apply Hown.
+Qed.
+
+Lemma inv06_init cfg f : inv06 cfg (init_state cfg f).
+Proof.
+  split; simpl.
+  - intros i. apply ltab_ok_nil.
+  - intros c. unfold cphase. simpl. apply ph_start.
+  - reflexivity.
+Qed.
+
+Lemma inv06_run cfg s sched : wf_cfg cfg -> inv06 cfg s -> inv06 cfg (run cfg s sched).
+Proof.
+  intros Hwf. revert s. unfold run. induction sched as [|e sched IH]; simpl; intros s Hs; [exact Hs|].
+  apply IH. now apply inv06_exec.
+Qed.
+
+Lemma inv06_reachable cfg f sched : wf_cfg cfg -> inv06 cfg (run cfg (init_state cfg f) sched).
+Proof. intros Hwf. apply inv06_run; [exact Hwf|apply inv06_init]. Qed.
+
+(* ------------------------------------------------------------------ the theorems of C06 *)
+
+Definition reachable (cfg : nat -> client) (f : nat -> option bytes) (s : state) : Prop :=
+  exists sched, s = run cfg (init_state cfg f) sched.
+
+Lemma inv06_of_reachable cfg f s : wf_cfg cfg -> reachable cfg f s -> inv06 cfg s.
+Proof. intros Hwf [sched ->]. now apply inv06_reachable. Qed.
+
+Lemma phase_cs_locked fl b p o l : phase fl b p o l SInCS -> exists m, lock_mode_of_flags fl = Some m /\ l = Some m.
+Proof.
+  intros H. inversion H; subst; try congruence; eauto.
+Qed.
+
+(* held from the return of the locking call until Close is called *)
+Theorem held_until_close cfg f s c :
+  wf_cfg cfg -> reachable cfg f s -> in_cs s c ->
+  exists m, mode_of cfg c = Some m /\ holds_lock cfg s c m.
+Proof.
+  intros Hwf Hr Hcs. pose proof (inv06_of_reachable _ _ _ Hwf Hr) as [Htab Hph _].
+  specialize (Hph c). unfold cphase in Hph. red in Hcs. rewrite Hcs in Hph.
+  destruct (phase_cs_locked _ _ _ _ _ Hph) as [m [Hm Hl]].
+  exists m. split; [exact Hm|]. unfold holds_lock.
+  apply holds_locked; [apply Htab|exact Hl].
+Qed.
+
+(* two clients inside their critical sections on one inode are both readers *)
+Theorem exclusion cfg f s c d :
+  wf_cfg cfg -> reachable cfg f s ->
+  c <> d -> c_ino (cfg c) = c_ino (cfg d) -> in_cs s c -> in_cs s d ->
+  mode_of cfg c = Some LSh /\ mode_of cfg d = Some LSh.
+Proof.
+  intros Hwf Hr Hcd Hino Hc Hd.
+  pose proof (inv06_of_reachable _ _ _ Hwf Hr) as [Htab _ _].
+  destruct (held_until_close cfg f s c Hwf Hr Hc) as [mc [Hmc Hhc]].
+  destruct (held_until_close cfg f s d Hwf Hr Hd) as [md [Hmd Hhd]].
+  unfold holds_lock in *. rewrite <- Hino in Hhd.
+  set (l := ltab (st_os s) (c_ino (cfg c))) in *.
+  destruct (Htab (c_ino (cfg c))) as [Hnd Hex]. fold l in Hnd, Hex.
+  apply (holds_locked _ _ _ Hnd) in Hhc. apply (holds_locked _ _ _ Hnd) in Hhd.
+  apply locked_In in Hhc. apply locked_In in Hhd.
+  rewrite Hmc, Hmd.
+  destruct mc, md; auto; exfalso; apply Hcd;
+    first [eapply Hex; eassumption | symmetry; eapply Hex; eassumption].
+Qed.
+
+Corollary writer_excludes_all cfg f s c d :
+  wf_cfg cfg -> reachable cfg f s ->
+  c <> d -> c_ino (cfg c) = c_ino (cfg d) ->
+  mode_of cfg c = Some LEx -> in_cs s c -> ~ in_cs s d.
+Proof.
+  intros Hwf Hr Hcd Hino Hm Hc Hd.
+  destruct (exclusion cfg f s c d Hwf Hr Hcd Hino Hc Hd) as [E _]. congruence.
+Qed.
+
+Lemma phase_mark_or_flock_locked fl b p o l st :
+  phase fl b p o l st ->
+  match p with Do (OMark MReturned) _ | Do (OFlock _) _ => True | _ => False end ->
+  exists m, lock_mode_of_flags fl = Some m /\ l = Some m.
+Proof.
+  destruct 1; eauto; unfold client_prog, open_file_prog, lock_stage, flock_step; simpl; contradiction.
+Qed.
+
+(* the lock is also in the table before the call returns and until the unlock step of Close *)
+Theorem held_from_before_return_to_unlock cfg f s c :
+  wf_cfg cfg -> reachable cfg f s ->
+  (progs s c = after_open (body_of_call (c_call (cfg c))) \/ in_cs s c \/
+   exists x, progs s c = close_prog (Ret x)) ->
+  exists m, mode_of cfg c = Some m /\ holds_lock cfg s c m.
+Proof.
+  intros Hwf Hr Hcase. pose proof (inv06_of_reachable _ _ _ Hwf Hr) as [Htab Hph _].
+  destruct Hcase as [Hp|[Hcs|[x Hp]]]; [| now apply (held_until_close cfg f) |];
+  specialize (Hph c); unfold cphase in Hph;
+  (destruct (phase_mark_or_flock_locked _ _ _ _ _ _ Hph) as [m [Hm Hl]]; [rewrite Hp; exact I|]);
+  exists m; (split; [exact Hm|]);
+  unfold holds_lock; apply holds_locked; try apply Htab; exact Hl.
 Qed.
